@@ -36,6 +36,8 @@ def work(d, run, i, sleep_ms, fail, gate=None, gate_wait=30):
             time.sleep(0.005)
     if fail == "base":
         raise FatalBoom(i)
+    if fail == "stopiter":
+        raise StopIteration(i)
     if fail:
         raise Boom(i)
     return ("r", run, i)
